@@ -38,8 +38,12 @@ RoleSets == IF Rich
               ELSE {{"decorate", "span"}, {"resource", "decorate", "log"}, {"span", "metric"}}
 FaultSets == IF Rich
                THEN {{}, {"resource"}, {"decorate"}, {"log"}, {"create_span"}, {"close_span"}, {"metric"}, {"shutdown"},
-                     {"decorate", "metric"}, {"create_span", "shutdown"}}
-               ELSE {{}, {"decorate", "metric"}, {"create_span", "shutdown"}, {"close_span"}, {"resource", "log"}}
+                     {"decorate", "metric"}, {"create_span", "shutdown"}, {"order"}, {"order", "shutdown"}}
+               ELSE {{}, {"decorate", "metric"}, {"create_span", "shutdown"}, {"close_span"}, {"resource", "log"},
+                     {"order"}}
+(* "order": the plugin's own order() fails when the loaded plugins are sorted. That costs the plugin its place (it is  *)
+(* sorted as if it had declared the default order - or left out: the harness compares neither its place nor its       *)
+(* callbacks), never the agent its start or the other plugins their places.                                           *)
 
 VARIABLES plugins,   \* configured plugins in configuration order: [load, order, roles, faults]
           phase,     \* 0 = configuring, k in 1..7 = activity Callbacks[k] is next, 8 = end
@@ -62,13 +66,16 @@ Configure(p) ==
     /\ called' = Append(called, <<>>)
     /\ UNCHANGED <<phase, loaded, spansOpen, aborted, life>>
 
+(* the order a plugin is sorted by (see FaultSets) *)
+EffOrder(i) == IF "order" \in plugins[i].faults THEN 1 ELSE plugins[i].order
+
 (* stable sort of the loadable plugins by their declared order *)
 Loadable == {i \in 1..Len(plugins) : plugins[i].load = "ok"}
 SortedLoad ==
     LET Asc(S) == LET F[k \in 0..Len(plugins)] ==
                           IF k = 0 THEN <<>> ELSE IF k \in S THEN Append(F[k - 1], k) ELSE F[k - 1]
                   IN F[Len(plugins)]
-        With(o) == {i \in Loadable : plugins[i].order = o}
+        With(o) == {i \in Loadable : EffOrder(i) = o}
     IN Asc(With(0)) \o Asc(With(1)) \o Asc(With(2))
 
 Load ==
@@ -127,8 +134,8 @@ Spec == Init /\ [][Next]_vars
 LoadedSet == phase # 0 => {loaded[k] : k \in 1..Len(loaded)} = Loadable
 LoadedOrder == phase # 0 =>
     \A a, b \in 1..Len(loaded) : a < b =>
-        \/ plugins[loaded[a]].order < plugins[loaded[b]].order
-        \/ (plugins[loaded[a]].order = plugins[loaded[b]].order /\ loaded[a] < loaded[b])
+        \/ EffOrder(loaded[a]) < EffOrder(loaded[b])
+        \/ (EffOrder(loaded[a]) = EffOrder(loaded[b]) /\ loaded[a] < loaded[b])
 NotLoadedNeverCalled == \A i \in 1..Len(plugins) : i \notin Loadable => called[i] = <<>>
 (* a failing plugin costs only its own contribution: nobody else's callback is skipped *)
 Isolation == aborted = {}
